@@ -161,8 +161,8 @@ def requests_in(fn):
     for n in ast.walk(fn):
         if isinstance(n, ast.Yield) and isinstance(n.value, ast.Tuple) and len(n.value.elts) == 3 \
                 and isinstance(n.value.elts[0], ast.Constant) and n.value.elts[0].value == 3:
-            out.append(ast.unparse(n.value.elts[1]))
-    return out
+            out.append(((n.lineno, n.col_offset), ast.unparse(n.value.elts[1])))
+    return [t for _, t in sorted(out)]          # in source order
 
 
 SHADOW_CASES = [
@@ -173,6 +173,9 @@ SHADOW_CASES = [
     ('reference outside the binder still denotes the rule', 'X = "x"\nT(X) = X\nstart = [T("a"), X]', '_try_start', None),
     ('unshadowed rule reference', 'X = "x"\nT(Y) = [Y, X]\nstart = T("a")', '_try_T', ['Y', '_try_X']),
     ('parameter used after an inner let of another name', 'X = "x"\nT(p) = let q = p in [q, p, X]\nstart = T("a")', '_try_T', ['p', 'q', 'p', '_try_X']),
+    ('a let inside a keyword argument ends with the argument', 'X = "x"\nT(k) = k\nR = [T(k=(let X = "q" in X)), X]\nstart = R', '_try_R', None),
+    ('a let inside a positional argument ends with the argument', 'X = "x"\nT(k) = k\nR = [T((let X = "q" in X)), X]\nstart = R', '_try_R', None),
+    ('a let inside a list ends with the list', 'X = "x"\nR = [(let X = "q" in X)*, X]\nstart = R', '_try_R', 'last-is-rule'),
 ]
 
 
@@ -190,9 +193,9 @@ def ref_resolution_obligations(rep, tier, unit='wiring:reference-resolution'):
             tree = ast.parse(src)
             fn = next(n for n in tree.body if isinstance(n, ast.FunctionDef) and n.name == fname)
             got = requests_in(fn)
-            if want is None:
-                # start = [T("a"), X]: second request must be the RULE X
-                ok = len(got) == 2 and got[1] == ('_ctx._try_X' if named else '_try_X')
+            if want is None or want == 'last-is-rule':
+                # start = [T("a"), X]: the LAST request of the function must be the RULE X
+                ok = len(got) >= 2 and got[-1] == ('_ctx._try_X' if named else '_try_X')
             else:
                 exp = [(('_ctx.' + w) if named and w.startswith('_try_') else w) for w in want]
                 ok = got == exp
@@ -440,6 +443,18 @@ def visit_reaches_every_child(rep, tier, unit='wiring:visit-reaches-every-child'
         X.visit(node, lambda e: seen.append(e.value) if isinstance(e, X.Str) else None)
         missing = sorted(made - set(seen))
         rep.add(unit, f'{name}: every literal child is visited', 'case_complete', not missing, detail={'missing': missing, 'made': sorted(made)})
+        # the passes that track scopes (SymbolCounter: references, free variables of helpers) rely on pre- and post-visitor being called
+        # as a well-nested traversal: every node entered is left, in stack order, and nothing is left that was not entered
+        ev, stack, ok_nest = [], [], True
+        X.visit(node, lambda e: ev.append(('pre', id(e))), lambda e: ev.append(('post', id(e))))
+        for kind_, ident in ev:
+            if kind_ == 'pre':
+                stack.append(ident)
+            elif not stack or stack.pop() != ident:
+                ok_nest = False
+        npre = sum(1 for k_, _ in ev if k_ == 'pre')
+        rep.add(unit, f'{name}: pre- and post-visitor calls are well nested (every node entered is left, in stack order)', 'case_complete',
+                ok_nest and not stack and npre > 0 and 2 * npre == len(ev), detail={'pre': npre, 'events': len(ev), 'unclosed': len(stack)})
     # every Expression subclass exported by the package is covered by the table above (a new class must be added here)
     classes = sorted(k for k, v in vars(X).items() if isinstance(v, type) and issubclass(v, frag.Expression) and v is not frag.Expression)
     covered = {'Apply', 'Backtrack', 'Byte', 'Call', 'Choice', 'Class', 'Discard', 'Expect', 'ExpectNot', 'Fail', 'Let', 'List', 'Longest',
@@ -1122,13 +1137,42 @@ def generator_state_obligations(rep, tier, unit='syntactic:generator-is-stateles
         allowed = [b for b in bad if 'sys.modules' in b]
         bad = [b for b in bad if b not in allowed]
         rep.add(unit, f'{os.path.relpath(path, paths.REPO)}: functions write no module-level state', 'syntactic', not bad, detail={'found': bad})
-    # Grammar(): include_source flows only into source_var
-    gsrc = open(os.path.join(root, 'grammar.py')).read()
-    uses = [ast.unparse(n) for n in ast.walk(ast.parse(gsrc)) if isinstance(n, ast.Name) and n.id == 'include_source' and isinstance(n.ctx, ast.Load)]
-    gtree = ast.parse(gsrc)
-    kw = [ast.unparse(k.value) for n in ast.walk(gtree) if isinstance(n, ast.Call) for k in n.keywords if 'include_source' in ast.unparse(k.value)]
-    rep.add(unit, 'Grammar(): include_source is read exactly once, to choose source_var', 'syntactic',
-            len(uses) == 1 and len(kw) == 1 and kw[0].startswith("'_source_code' if include_source"), detail={'uses': uses, 'kw': kw})
+    # Grammar(): include_source flows only into the source_var argument of the code builder's compile() (taint analysis inside Grammar)
+    gtree = ast.parse(open(os.path.join(root, 'grammar.py')).read())
+    gfn = next((n for n in gtree.body if isinstance(n, ast.FunctionDef) and 'include_source' in astutil.params_of(n)), None)
+    bad, sinks = [], 0
+    if gfn is None:
+        bad.append('no function takes include_source')
+    else:
+        tainted = {'include_source'}
+        in_sink = {id(x) for c in ast.walk(gfn) if isinstance(c, ast.Call) for k in c.keywords if k.arg == 'source_var' for x in ast.walk(k.value)}
+        changed = True
+        while changed:
+            changed = False
+            for n in ast.walk(gfn):
+                # what the sink call returns (the module) is the intended product, not tainted data
+                if isinstance(n, ast.Assign) and any(isinstance(x, ast.Name) and x.id in tainted and id(x) not in in_sink for x in ast.walk(n.value)):
+                    for t in n.targets:
+                        for x in ast.walk(t):
+                            if isinstance(x, ast.Name) and x.id not in tainted:
+                                tainted.add(x.id)
+                                changed = True
+        allowed = set()
+        for n in ast.walk(gfn):
+            if isinstance(n, ast.Assign) and all(isinstance(t, ast.Name) for t in n.targets):
+                allowed.update(id(x) for x in ast.walk(n.value))                      # feeding another (tainted) local
+            if isinstance(n, ast.Call):
+                for k in n.keywords:
+                    if k.arg == 'source_var':
+                        hit = [x for x in ast.walk(k.value) if isinstance(x, ast.Name) and x.id in tainted]
+                        sinks += bool(hit)
+                        allowed.update(id(x) for x in ast.walk(k.value))
+        for n in ast.walk(gfn):
+            if isinstance(n, ast.Name) and isinstance(n.ctx, ast.Load) and n.id in tainted and id(n) not in allowed:
+                bad.append(f'{n.id} used at line {n.lineno}')
+        # a tainted local must not be used for anything but the sink either: values assigned from tainted data are only read at the sink
+    rep.add(unit, 'Grammar(): include_source (and what is computed from it) flows only into the source_var argument of compile()', 'syntactic',
+            not bad and sinks == 1, detail={'other_uses': bad, 'sinks': sinks})
 
 
 # ---------------------------------------------------------------------------------------------- C20 namespaces
@@ -1443,7 +1487,7 @@ def isolation_obligations(rep, tier, unit='wiring:isolation'):
                     b = base.id if isinstance(base, ast.Name) else ast.unparse(base)
                     ok = b in fresh or (b == 'self' and name.split('.')[-1] in ('__init__', '__setattr__', '__hash__')) or \
                         (b == 'result' and b in {t.id for x in ast.walk(fn) if isinstance(x, ast.Assign) for t in x.targets if isinstance(t, ast.Name)}) or \
-                        (name == '_finalize_parse_info' and ast.unparse(n) == 'node._metadata.position_info') or \
+                        (name == '_finalize_parse_info' and isinstance(n, ast.Attribute) and n.attr == 'position_info') or \
                         (name.startswith('_Metadata.') and b == 'self') or (name == 'ParsedObject._replace' and b == 'kw')
                     if not ok:
                         bad.append(ast.unparse(n))
@@ -1475,7 +1519,12 @@ def isolation_obligations(rep, tier, unit='wiring:isolation'):
                     if isinstance(n, (ast.Global, ast.Nonlocal)):
                         bad_store.append((fn.name, ast.unparse(n)))
                     if isinstance(n, (ast.Attribute, ast.Subscript)) and isinstance(n.ctx, (ast.Store, ast.Del)) and ast.unparse(n) != '_result._metadata.position_info':
-                        bad_store.append((fn.name, ast.unparse(n)))
+                        base = n.value
+                        while isinstance(base, (ast.Attribute, ast.Subscript)):
+                            base = base.value
+                        # element / slice stores and deletions on a list allocated by this activation (del stack[k:]) stay inside its frame
+                        if not (isinstance(n, ast.Subscript) and isinstance(base, ast.Name) and base.id in fresh):
+                            bad_store.append((fn.name, ast.unparse(n)))
                     if isinstance(n, ast.Call) and isinstance(n.func, ast.Attribute) and n.func.attr in ('append', 'pop', 'extend', 'add', 'update', 'clear', 'insert', 'remove') \
                             and isinstance(n.func.value, ast.Name) and n.func.value.id not in fresh:
                         bad_store.append((fn.name, ast.unparse(n)[:50]))
